@@ -1556,6 +1556,24 @@ template <typename Key, typename Value, class INode>
   UNODB_DETAIL_ASSERT(is_node_min_size);
 
   if constexpr (std::is_same_v<INode, olc_inode_4<Key, Value>>) {
+    // If the remaining child is an inode, leave_last_child prepends to its key
+    // prefix in place, thus it has to be write-locked too. Open its read
+    // critical section before taking any write lock, so that we never wait
+    // while holding one.
+    const auto remaining_child{
+        inode.get_child(static_cast<std::uint8_t>(child_i == 0 ? 1U : 0U))};
+    if (UNODB_DETAIL_UNLIKELY(!node_critical_section.check())) return {};
+    const auto remaining_child_is_inode{remaining_child.type() !=
+                                        node_type::LEAF};
+    optimistic_lock::read_critical_section remaining_child_critical_section;
+    if (remaining_child_is_inode) {
+      remaining_child_critical_section =
+          node_ptr_lock(remaining_child).try_read_lock();
+      if (UNODB_DETAIL_UNLIKELY(
+              remaining_child_critical_section.must_restart()))
+        return {};
+    }
+
     const optimistic_lock::write_guard parent_guard{
         std::move(parent_critical_section)};
     if (UNODB_DETAIL_UNLIKELY(parent_guard.must_restart())) return {};
@@ -1566,6 +1584,14 @@ template <typename Key, typename Value, class INode>
     optimistic_lock::write_guard child_guard{
         std::move(*child_critical_section)};
     if (UNODB_DETAIL_UNLIKELY(child_guard.must_restart())) return {};
+
+    std::optional<optimistic_lock::write_guard> remaining_child_guard;
+    if (remaining_child_is_inode) {
+      remaining_child_guard.emplace(
+          std::move(remaining_child_critical_section));
+      if (UNODB_DETAIL_UNLIKELY(remaining_child_guard->must_restart()))
+        return {};
+    }
 
     auto current_node{olc_art_policy<Key, Value>::make_db_inode_reclaimable_ptr(
         &inode, db_instance)};
